@@ -35,6 +35,7 @@ def demo_info(txt, k, out_dir):
     """returns (place_path, run_pattern, pkg)"""
     m = re.search(r"([\w./-]+_test\.go)", re.sub(r"demo%s_test\.go" % k, "", txt, count=0))
     place = None
+    txt = re.sub(r"<repo>/|<worktree>/|\$REPO/", "", txt)
     for cand in re.findall(r"([\w./-]+/[\w.-]+_test\.go)", txt):
         if not cand.startswith("/"):
             place = cand
